@@ -1,5 +1,5 @@
 (* C09 — WEP and WPA2 (TKIP/CCMP) decryption recovers exactly the plaintext, safely. *)
-From LT Require Import Base.Prelude Base.CInt Model.Checksum Model.AES Model.Wifi Proofs.Wifi Proofs.Crc.
+From LT Require Import Base.Prelude Base.CInt Model.Checksum Model.AES Model.Wifi Proofs.Wifi Proofs.Crc Proofs.IcvForgery.
 Local Open Scope Z_scope.
 
 (* memory safety: for EVERY frame body of any length (and any key material, header, block cipher) the decryption code
@@ -58,6 +58,17 @@ Print Assumptions C09_icv_alone_is_malleable.
 Example C09_icv_malleable_nonvacuous :
   (crc32 (xorl [170;170;3;0] [0;4;0;0]) = Z.lxor (crc32 [170;170;3;0]) (crc_delta [0;4;0;0])) /\ (crc_delta [0;4;0;0] =? 0) = false.
 Proof. split; vm_compute; reflexivity. Qed.
+
+(* ... and the consequence for the decryptor model: a WEP frame modified WITHOUT the key (any payload bits d flipped, the
+   encrypted ICV patched by le32 (crc_delta d)) is accepted and the flipped plaintext reported as decrypted.  For WEP this is
+   the protocol's own weakness (the property's "ICV verifies" is all WEP offers), stated so that the limit of what
+   C09_wep_needs_icv guarantees is visible; the TKIP analogue is the recorded finding. *)
+Theorem C09_wep_bitflip_with_patched_icv_is_accepted : forall pw i0 i1 i2 kid m d, m <> [] ->
+  Forall (fun x => 0 <= x < 256) m -> Forall (fun x => 0 <= x < 256) d -> length m = length d ->
+  let E := wep_encrypt pw i0 i1 i2 kid m in
+  wep_decrypt (firstn 4 E ++ xorl (skipn 4 E) (d ++ le32 (crc_delta d))) pw = Ok (Some (xorl m d)).
+Proof. exact wep_bitflip_accepted. Qed.
+Print Assumptions C09_wep_bitflip_with_patched_icv_is_accepted.
 
 (* the handshake capturer: messages 1-3 each possibly retransmitted, then message 4 (then retransmissions of it), after
    whatever was collected before: exactly one completion, at message 4, holding this run's four messages *)
